@@ -128,7 +128,7 @@ def check_family_writes(res, m, rel, writes, required, col_var, site, fn_node, w
     req_names = {f.name for f in required}
     for f in required:
         ws = by.get(f.name, [])
-        key_base = "%s:%s:%s:%s" % (res.rule, site, what, diag_sig(f) if f.eqs is not None else "plain")
+        key_base = "%s:%s:%s:%s" % (res.rule, site_kind(site), what, "diagonal" if f.eqs is not None else "plain")
         if len(ws) != 1:
             res.bad(key_base + ":count=%d" % len(ws), m.where(fn_node, site),
                     "%s: index %s is %s %d times (expected once) for relation %s" % (site, f.name, what, len(ws), rel),
